@@ -273,7 +273,7 @@ pub fn run(ctx: &Ctx) -> i32 {
             let mut rng = Rng::new(seed, 0x82_0000 + i as u64);
             let tcs = gen::family(&mut rng, if i % 4 < 2 { &al_lower } else { &al });
             st.count("random_sigma_case_insensitive");
-            let s = Settings::new(CI | MODES[1 + i % 3] | if i % 7 == 0 { REP } else { 0 });
+            let s = Settings::new(CI | MODES[1 + i % 3] | if i % 7 == 0 { REP } else { 0 } | if i % 5 == 0 { VERB } else { 0 } | if i % 11 == 0 { CAP } else { 0 });
             if i % 2 == 0 {
                 // the case-sensitive build of the same test cases immediately before, on the same thread
                 let _ = build(&tcs, s.without(CI));
